@@ -11,7 +11,7 @@ import warnings
 import numpy as np
 import scipy.sparse as sp
 
-from vf.core import Result, HarnessError, REPO
+from vf.core import jsame, Result, HarnessError, REPO
 from vf.ref import op4_enc, op2_enc
 
 PROP = "C11"
@@ -525,10 +525,10 @@ def replay(case):
         if case.get("part") == "op4":
             out = run_op4_case(tuple(case["case"]), tier, res)
             keys = [k for k in case if k not in ("part", "case", "tier")]
-            return [m for ex, m in out if all(ex.get(k) == case[k] for k in keys)]
+            return [m for ex, m in out if all(jsame(ex.get(k), case[k]) for k in keys)]
         out = run_op2(tier, res, case["part"])
         keys = [k for k in case if k not in ("tier",)]
-        return [m for ex, m in out if all(ex.get(k) == case[k] for k in keys)]
+        return [m for ex, m in out if all(jsame(ex.get(k), case[k]) for k in keys)]
     finally:
         if _DIR and os.path.isdir(_DIR):
             shutil.rmtree(_DIR, ignore_errors=True)
